@@ -7,9 +7,10 @@ import numpy as np
 import vlib
 from vlib import rlit
 from fixtures import make_header
+from harness import c16x
 
-GEN = ['WcsHelper', 'Sphere']
-EXTRA_TARGETS = ['Proofs/WcsCert.vo']
+GEN = ['WcsHelper', 'Sphere'] + c16x.GEN_EXTRA
+EXTRA_TARGETS = ['Proofs/WcsCert.vo'] + c16x.EXTRA_TARGETS
 LEVEL = 'proof'
 TRUSTED = [
     'Coq 8.16.1 kernel; real-number axioms of the standard library (sig_forall_dec, sig_not_dec, functional_extensionality_dep, classic)',
@@ -34,6 +35,8 @@ ASSUMPTIONS = [
     'C16_ellipse_roundtrip_partial: the two hypotheses (conformality, odd linearity) hold only approximately for real projections; '
     'their defects are measured and reported, the 1e-3 / 0.01 deg clause for the minor axis is decided by execution on the real code',
 ]
+TRUSTED += c16x.TRUSTED_EXTRA
+ASSUMPTIONS += c16x.ASSUMPTIONS_EXTRA
 HEADER = ("From Coq Require Import Reals.\nFrom Interval Require Import Tactic.\n"
           "From Aegean Require Import Lib.RBase Gen.Sphere Lib.Sphere Gen.WcsHelper Model.WcsHelper Proofs.WcsHelperProofs Proofs.WcsCert.\n"
           "Open Scope R_scope.")
@@ -850,6 +853,7 @@ def run(ctx, model_ok=True):
         ctx.oblige(f'certified correspondence: {len(acc["goals"])} certificates (sky2pix_vec, pix2sky_vec, sky2pix_ellipse, pix2sky_ellipse on '
                    f'{nh} real WCSHelpers; interval-checked premises)', not badg and len(acc['goals']) >= 2 * nh, f'{len(badg)} shards failed')
         ctx.traces += len(acc['goals'])
+    c16x.run_extra(ctx, model_ok)
 
 
 # ------------------------------------------------------------------------------------------
@@ -903,6 +907,9 @@ def problems_on(desc, h, rng):
 
 def search(ctx):
     rng = ctx.rng
+    extra = c16x.search_extra(ctx)
+    if extra:
+        return extra
     t0 = time.time()
     k = 0
     f = pole_tip_problem()
@@ -929,6 +936,8 @@ def replay(ctx, obj):
         for b in obj.get('broken', []):
             print('  ', b.get('what'), str(b.get('detail', b.get('case', '')))[:400])
         return 1
+    if fi.get('kind') in ('pixinfo', 'beam', 'aips', 'psfmap', 'psfmap-nan', 'sky_sep', 'from_file', 'beamarea'):
+        return c16x.replay_extra(ctx, fi)
     if fi.get('kind') == 'sip-point':
         import warnings
         c = fi['header']['cards']
